@@ -34,12 +34,13 @@ static TwinResult runTwin(const vh::Recipe &recipe, const vh::Decoration &deco, 
 }
 
 int main(int argc, char **argv) {
-	uint64_t seed = vh::argU64(argc, argv, 1, 1), ncases = vh::argU64(argc, argv, 2, 50), nsteps = vh::argU64(argc, argv, 3, 25), twins = vh::argU64(argc, argv, 4, 4);
+	uint64_t seed = vh::argU64(argc, argv, 1, 1), ncases = vh::argU64(argc, argv, 2, 50), nsteps = vh::argU64(argc, argv, 3, 25), twins = vh::argU64(argc, argv, 4, 4), only = vh::argU64(argc, argv, 5, ~0ull);
 	std::ios::sync_with_stdio(false);
 	std::cout << "# prop=C11 seed=" << seed << " cases=" << ncases << " nsteps=" << nsteps << " twins=" << twins << "\n";
 	Rng top(seed * 0x100000001b3ull + 11);
 	for (uint64_t k = 0; k < ncases; k++) {
 		Rng rng = top.fork();
+		if (only != ~0ull && k != only) continue;
 		vh::GenOpts go;
 		go.nInputs = 2 + rng.below(4); go.nSteps = 3 + rng.below(nsteps); go.maxWidth = 1 + rng.below(6);
 		go.regs = rng.chance(3, 4); go.wide = rng.chance(1, 6); go.undefinedConsts = rng.chance(1, 8); go.fullyDefined = rng.chance(2, 3); go.patternBias = rng.chance(1, 3) ? 30 : 8;
